@@ -46,9 +46,9 @@ HOSTWIRE_MIN = {'hostwire_histories': 2400, 'hostwire_packets': 100000, 'hostwir
                 'hostwire_disconnects_freeing_for_others': 2000, 'hostwire_full_waits': 90000,
                 'hostwire_drain_waiters': 6000, 'hostwire_nocp_events': 25000, 'hostwire_nocp_multi_pool': 5000}
 MIN_EVENTS = {
-    'quick': {'queue_ops': 300000, 'pipe_writes': 15000, 'rig_acl_packets': 1500, 'drain_waiters': 40000,
+    'quick': {'queue_ops': 300000, 'pipe_writes': 15000, 'pipe_restarts': 600, 'rig_acl_packets': 1500, 'drain_waiters': 40000,
               **HOSTWIRE_MIN},
-    'thorough': {'queue_ops': 5000000, 'pipe_writes': 300000, 'rig_acl_packets': 15000, 'drain_waiters': 500000,
+    'thorough': {'queue_ops': 5000000, 'pipe_writes': 300000, 'pipe_restarts': 15000, 'rig_acl_packets': 15000, 'drain_waiters': 500000,
                  **{k: 16 * v for k, v in HOSTWIRE_MIN.items()}},
 }
 CASE_TIMEOUT = 600
@@ -315,7 +315,7 @@ async def pipe_history(rng: random.Random, r: R):
     n = rng.randint(2, 30)
     maxq = 0
     for i in range(n):
-        op = rng.choices(['write', 'burst', 'pause', 'resume', 'step', 'yield'], [5, 2, 1, 1.5, 3, 3])[0]
+        op = rng.choices(['write', 'burst', 'pause', 'resume', 'step', 'yield', 'restart'], [5, 2, 1, 1.5, 3, 3, 0.7])[0]
         if op == 'write':
             pk = bytes([len(written) & 0xFF, len(written) >> 8]) + bytes(rng.randint(0, 20))
             written.append(pk)
@@ -331,6 +331,13 @@ async def pipe_history(rng: random.Random, r: R):
             pipe.pause()
         elif op == 'resume':
             pipe.resume()
+        elif op == 'restart':
+            # the pipe is stopped and started again (a bridge re-attached), with 0-2 loop turns in between
+            pipe.stop()
+            for _ in range(rng.choice([0, 0, 1, 2])):
+                await asyncio.sleep(0)
+            pipe.start()
+            r.ev('pipe_restarts')
         elif op == 'step':
             gate.set()
             await asyncio.sleep(0)
